@@ -479,6 +479,13 @@ impl WhenCalledBuilder<'_> {
     /// `times``: // Optional. How many times the function should be called. If the value is not satisfied at the end of the test, the test will fail.
     pub fn will_execute(self, fake_pair: (FuncPtr, CallCountVerifier)) {
         let (fake_func, verifier) = fake_pair;
+
+        // The counter is a static owned by the `fake!` call site, so it survives earlier
+        // installations built by the same line of source. Count only calls made from now on.
+        if let CallCountVerifier::WithCount { counter, .. } = &verifier {
+            counter.store(0, std::sync::atomic::Ordering::SeqCst);
+        }
+
         self.lib.verifiers.push(verifier);
         self.will_execute_raw(fake_func);
     }
